@@ -244,8 +244,10 @@ fn gen_workload(rng: &mut Rng, t: u64, n: u64, probes: bool) -> Vec<Value> {
     let mut v = vec![];
     let mut has = vec![false; NSLOTS];
     let mut depth = 0;
+    // half of the operations concentrate on one slot so that create / enter / create-inside chains form
+    let hot = rng.below(NSLOTS as u64) as usize;
     for _ in 0..n {
-        let slot = rng.below(NSLOTS as u64) as usize;
+        let slot = if rng.chance(1, 2) { hot } else { rng.below(NSLOTS as u64) as usize };
         let site = rng.below(20);
         let st = match rng.below(100) {
             0..=19 => {
